@@ -39,6 +39,8 @@
 //     dns.Msg, caches, …) is abstract: parameters of such types are dropped and
 //     an expression that reads from them (`req.Question[0].Qtype`) becomes an
 //     extra parameter `e<k>_<name>` holding its value;
+//   - a keyed literal `T{…}` of a translated struct type is the Lean structure
+//     value (missing fields zero), `&T{…}` is `some` of it;
 //   - []error literals, append on them and errors.Join are lists of optional
 //     texts and "first non-nil" (errors.Join is non-nil iff an element is);
 //   - any other call is *opaque*: its result becomes an extra parameter of the
@@ -578,6 +580,9 @@ func (c *fctx) expr(e ast.Expr) ex {
 	case *ast.SelectorExpr:
 		return c.selector(x)
 	case *ast.UnaryExpr:
+		if cl, ok := x.X.(*ast.CompositeLit); ok && x.Op == token.AND {
+			return c.bindN([]ex{c.expr(cl)}, func(s []string) string { return "(some " + s[0] + ")" })
+		}
 		a := c.expr(x.X)
 		switch x.Op {
 		case token.NOT:
@@ -602,12 +607,54 @@ func (c *fctx) expr(e ast.Expr) ex {
 			}
 			return c.bindN(xs, func(s []string) string { return "[" + strings.Join(s, ", ") + "]" })
 		}
+		if n, ok := types.Unalias(c.typeOf(x)).(*types.Named); ok {
+			if st, ok := n.Underlying().(*types.Struct); ok {
+				if lt := c.t.structType(n, st); lt != "" {
+					return c.structLit(x, st, lt)
+				}
+			}
+		}
 	}
 	if _, ok := e.(*ast.IndexExpr); ok {
 		return c.opaqueValue(e)
 	}
 	fail("expression %s (%T)", c.show(e), e)
 	return ex{}
+}
+
+// structLit translates a keyed literal of a translated struct type: fields that
+// are not mentioned get their zero value, fields of untranslatable type are
+// dropped (values are evaluated in the order of the fields).
+func (c *fctx) structLit(x *ast.CompositeLit, st *types.Struct, lt string) ex {
+	vals := map[string]ast.Expr{}
+	for _, el := range x.Elts {
+		kv, ok := el.(*ast.KeyValueExpr)
+		if !ok {
+			fail("positional struct literal %s", c.show(x))
+		}
+		vals[kv.Key.(*ast.Ident).Name] = kv.Value
+	}
+	var names []string
+	var xs []ex
+	for i := 0; i < st.NumFields(); i++ {
+		f := st.Field(i)
+		if c.t.leanType(f.Type()) == "" {
+			continue
+		}
+		names = append(names, leanIdent(f.Name()))
+		if v, ok := vals[f.Name()]; ok {
+			xs = append(xs, c.exprAs(v, f.Type()))
+		} else {
+			xs = append(xs, ex{code: c.zero(f.Type())})
+		}
+	}
+	return c.bindN(xs, func(s []string) string {
+		var parts []string
+		for i, n := range names {
+			parts = append(parts, n+" := "+s[i])
+		}
+		return "({ " + strings.Join(parts, ", ") + " } : " + lt + ")"
+	})
 }
 
 // opaqueValue turns an expression the subset cannot express (an element of a
